@@ -120,7 +120,13 @@ TVCall == /\ l <= Len(Rec) /\ Rec[l].ev = "call"
 TVCrashAny == /\ l <= Len(Rec) /\ Rec[l].ev \in {"crash", "begin"}
               /\ viol' = IF Rec[l].ev = "crash" THEN AddViol(viol, {"ANY/process-killed-by-signal-" \o Str(Rec[l].signal)}, Rec[l].id) ELSE viol
               /\ l' = l + 1 /\ UNCHANGED <<fe, srv, devPF, judged, cur>>
-TVNext == TVReset \/ TVFlags \/ TVCall \/ TVCrashAny
+\* C09 over the whole session: after both endpoints are gone nothing they received, and nothing the handler handed over for
+\* transmission, is still open
+TVTeardown == /\ l <= Len(Rec) /\ Rec[l].ev = "teardown"
+              /\ viol' = AddViol(viol, TeardownViol(Rec[l], "session"), cur)
+              /\ l' = l + 1
+              /\ UNCHANGED <<fe, srv, devPF, judged, cur>>
+TVNext == TVReset \/ TVFlags \/ TVCall \/ TVCrashAny \/ TVTeardown
 TVSpec == TVInit /\ [][TVNext]_tvars
 Post == PostOK
 Report == ReportAt(l, judged, viol)
